@@ -141,8 +141,24 @@ def main() -> int:
     except lib.ToolFailure as ex:
         print(f"TOOL-FAILURE property={pid}: {ex}")
         return 2
-    except Exception:  # an unexpected crash of the harness is a tool failure, never a violation
+    except Exception as ex:
         traceback.print_exc()
+        # An exception that was RAISED INSIDE the library (innermost frame under REPO/han) at a place where the harness,
+        # written against the model, expects none, is a disagreement between implementation and model: the
+        # correspondence no longer holds. (On the unchanged tree this never happens.) Anything else - an exception
+        # raised in harness code, a missing private attribute the harness uses - is a tool failure, never a violation.
+        tb = traceback.extract_tb(ex.__traceback__)
+        inner = tb[-1].filename if tb else ""
+        if os.path.abspath(inner).startswith(os.path.join(os.path.abspath(lib.REPO), "han") + os.sep) \
+                and not isinstance(ex, (AttributeError, ImportError, NameError, TypeError)):
+            payload = {"property": pid, "kind": "no-failing-input-found", "seed": seed, "tier": tier,
+                       "proof_obligations_that_no_longer_check": [],
+                       "correspondence_disagreements": [f"the implementation raised {type(ex).__name__}: {ex} where the model raises nothing"],
+                       "traceback": traceback.format_exc()[-3000:]}
+            path = lib.write_replay(pid, payload)
+            print(f"[{pid}] tier={tier} seed={seed} correspondence broken: the implementation raised {type(ex).__name__} inside {inner}")
+            print(f"VIOLATION property={pid} replay={path} no-failing-input-found")
+            return 1
         print(f"TOOL-FAILURE property={pid}: harness crashed")
         return 2
 
